@@ -424,8 +424,9 @@ func genFragment(rt *rapid.T, p *Profile, cfg *Config) []Step {
 		case 0:
 			out = append(out, Step{Op: "CreatePermission", C: c, P: []int{peer}, Life: -1})
 		case 1:
-			// several peers in one request; the probed one is not the first
-			out = append(out, Step{Op: "CreatePermission", C: c, P: []int{peer2, peer2, peer}, Life: -1})
+			// several peers in one request; the probed one is the last, the first or in the middle
+			order := [][]int{{peer2, peer2, peer}, {peer, peer2}, {peer2, peer, (peer2 + 1) % 3}, {peer, peer2, peer2}}
+			out = append(out, Step{Op: "CreatePermission", C: c, P: rapid.SampledFrom(order).Draw(rt, "fmultiOrder"), Life: -1})
 		default:
 			out = append(out, Step{Op: "ChannelBind", C: c, P: []int{peer}, Ch: ch, Life: -1})
 		}
